@@ -337,9 +337,17 @@ def scenario_one(ctx: Ctx, picks, dt: int, nsteps: int, rng: random.Random, stat
             tw = twins[tid]
             if tw["dead"]:
                 continue
+            z_before = tw["main"][1][2]
             for name in ("main", "d10", "skip"):
                 dyn, x, iv = tw[name]
                 tw[name][1] = twin_step(dyn, x, k * step_s, t_now, iv, tw["fn"])
+            # a plane-change maneuver flips its thrust where the orbit crosses the equator: a discontinuity that two
+            # integrations resolve differently - such a case is undecided from that step on (soundness rule 2)
+            if ev["kind"] == "plane_change" and tw["d10"][2][0] < t_now and tw["d10"][2][1] > k * step_s and \
+                    (z_before * tw["main"][1][2] <= 0 or min(abs(z_before), abs(tw["main"][1][2])) < 5.0):
+                tw["dead"] = True
+                stats["undecided_plane_change_at_equator"] += 1
+                continue
             got = np.asarray(app.target_agents[tid].eci_state, dtype=float)
             tol_r = TOL_R + TOL_V * t_now
 
@@ -377,7 +385,7 @@ def scenario_one(ctx: Ctx, picks, dt: int, nsteps: int, rng: random.Random, stat
 
 def primary_replay(ctx: Ctx, behs, rng: random.Random) -> dict:
     stats = {"scenarios": 0, "exact_grid_scenarios": 0, "cases": 0, "steps": 0, "violations": 0, "max_dr": 0.0, "max_dv": 0.0,
-             "by_signature": {}, "by_class": {}, "categories": {}}
+             "undecided_plane_change_at_equator": 0, "by_signature": {}, "by_class": {}, "categories": {}}
     groups: dict = {}
     for b in behs:
         if b["burn"]["kind"] != "none":
@@ -437,7 +445,10 @@ def run(ctx: Ctx):
         ">= 1e-6 km/s^2) is 1e-5 km/s",
         "(b) the on-interval in scenario seconds is the configured datetimes passed through datetimeToJulianDate / "
         "convertToScenarioTime (checked to be within 1 ms of the nominal whole seconds); delivery windows are C01's concern",
-        "one burn per target; overlapping burns are not defined by the simulator (single finite_thrust slot)",
+        "(b) a plane-change maneuver whose orbit crosses the equator (|z| < 5 km or sign change) during a step that overlaps the "
+        "burn is undecided from that step on: the thrust is discontinuous there and two integrations resolve it differently",
+        "overlapping burns are not defined by the simulator (single finite_thrust slot); back-to-back burns and a zero impulse in "
+        "the middle of a burn are explored on the exact law (same spec numbers)",
     ]
     res, behs = K.run_spec(ctx, "steps", "Kinematics.tla Mode=steps: all (law, Dt, NSteps, ts, te, kind); C15 invariants + behaviours",
                            invs=INV15, **spec_cfg(ctx))
